@@ -4,7 +4,9 @@ canonicalises what came out.  Also the oracle (property text transcribed over
 the implementation's own results) and the sub-domain classifier.
 
 case  = [cfg, chartab, states]
-cfg   = [wrap, margin, [top, bottom, left, right], [pk, first, cont, var], tabstop, [bflag, before]]
+cfg   = [wrap, margins, [top, bottom, left, right], [pk, first, cont, var], tabstop, [bflag, before], allow]
+          margins 0: none, 1: left NumberedMargin, 2: right ScrollbarMargin, 3: both
+          allow: allow_scroll_beyond_bottom
           pk 0: get_line_prefix=None; pk 1: prefix(l, k) = (first if k == 0 else cont) + '#' * ((l + k) % 2 if var else 0)
           tabstop 0: no TabsProcessor;  bflag 1: BeforeInput(before)
 chartab = [[code, source_width, display_width, display_string], ...]   (as the implementation measures them)
@@ -51,10 +53,10 @@ class Window11:
         from prompt_toolkit.layout import Layout, Window
         from prompt_toolkit.layout.containers import ScrollOffsets
         from prompt_toolkit.layout.controls import BufferControl
-        from prompt_toolkit.layout.margins import NumberedMargin
+        from prompt_toolkit.layout.margins import NumberedMargin, ScrollbarMargin
         from prompt_toolkit.layout.processors import BeforeInput, TabsProcessor
         from prompt_toolkit.output import DummyOutput
-        wrap, margin, offs, pf, tabstop, (bflag, before) = cfg
+        wrap, margin, offs, pf, tabstop, (bflag, before), allow = cfg
         self.cfg = cfg
         procs = []
         if bflag:
@@ -67,7 +69,9 @@ class Window11:
         if pf[0]:
             glp = lambda l, k: prefix_text(pf, l, k)  # noqa
         self.win = Window(self.ctl, wrap_lines=bool(wrap),
-                          left_margins=[NumberedMargin()] if margin else [],
+                          left_margins=[NumberedMargin()] if margin & 1 else [],
+                          right_margins=[ScrollbarMargin()] if margin & 2 else [],
+                          allow_scroll_beyond_bottom=bool(allow),
                           scroll_offsets=ScrollOffsets(top=offs[0], bottom=offs[1], left=offs[2], right=offs[3]),
                           get_line_prefix=glp)
         self.app = Application(layout=Layout(self.win), output=DummyOutput(), input=DummyInput())
@@ -112,7 +116,7 @@ class Window11:
                 rowc = scr.data_buffer[y + ypos]
                 grid.append([S(rowc[x + xpos + mw].char) for x in range(max(bw, 0))])
             cp = scr.cursor_positions.get(win)
-            res = [0, win.vertical_scroll, win.vertical_scroll_2, win.horizontal_scroll, mw,
+            res = [0, win.vertical_scroll, win.vertical_scroll_2, win.horizontal_scroll, mw, bw,
                    [ui.cursor_position.y, ui.cursor_position.x],
                    [cp.y, cp.x] if cp is not None else [],
                    look, len(r2) - nkeys, vlook, grid]
